@@ -55,3 +55,9 @@ where
 {
     edges.into_iter().map(|(i, j)| make_edge(i, j)).collect()
 }
+
+/// Verification hook: exposes `Tour::try_path` (edge surgery + successor walk) for a given path.
+#[cfg(reinterpretcat_vrp_verif)]
+pub fn verif_try_path(path: Path, broken: &[Edge], joined: &[Edge]) -> Option<Path> {
+    Tour::new(path).try_path(&make_edge_set(broken.iter().copied()), &make_edge_set(joined.iter().copied()))
+}
